@@ -107,7 +107,7 @@ func (ex *expecter) file(p *j5sgen.Pkg, f *j5sgen.File) {
 	for _, e := range f.Elems {
 		switch e.Kind {
 		case j5sgen.KObject, j5sgen.KOneof:
-			main.Msgs = append(main.Msgs, ctx.msg(main, p.Name, e.Object.Name, e.Object.Oneof, nil, e.Object.Props, e.Object.Nested, "-"))
+			main.Msgs = append(main.Msgs, ctx.msg(main, p.Name, e.Object.Name, e.Object.Oneof, nil, e.Object.Props, e.Object.Nested, psmOf(e.Object)))
 		case j5sgen.KEnum:
 			main.Enums = append(main.Enums, ctx.enum(main, p.Name, e.Enum.Name, e.Enum.Prefix, e.Enum.Opts))
 		case j5sgen.KService:
@@ -176,6 +176,14 @@ func protoMapEntry(snakeName string) string {
 }
 
 // msg builds the expected message for an object / oneof with optional implicit leading fields.
+// psmOf: the (j5.ext.v1.psm) option of a hand-written object with an entity annotation
+func psmOf(o *j5sgen.Object) string {
+	if o.PSM == nil {
+		return "-"
+	}
+	return o.PSM.Entity + ":" + o.PSM.Part
+}
+
 func (c *fctx) msg(out *expFile, scope, name string, oneof bool, prepend, props []*j5sgen.Prop, nested []*j5sgen.Elem, psm string) *j5sreal.SMsg {
 	m := &j5sreal.SMsg{Name: name, Full: scope + "." + name, Kind: "object", PSM: psm}
 	if oneof {
@@ -221,7 +229,7 @@ func (c *fctx) msg(out *expFile, scope, name string, oneof bool, prepend, props 
 	for _, n := range nested {
 		switch n.Kind {
 		case j5sgen.KObject, j5sgen.KOneof:
-			m.Msgs = append(m.Msgs, c.msg(out, m.Full, n.Object.Name, n.Object.Oneof, nil, n.Object.Props, n.Object.Nested, "-"))
+			m.Msgs = append(m.Msgs, c.msg(out, m.Full, n.Object.Name, n.Object.Oneof, nil, n.Object.Props, n.Object.Nested, psmOf(n.Object)))
 		case j5sgen.KEnum:
 			m.Enums = append(m.Enums, c.enum(out, m.Full, n.Enum.Name, n.Enum.Prefix, n.Enum.Opts))
 		}
@@ -484,7 +492,7 @@ func (c *fctx) entity(main *expFile, svcFile, topFile func() *expFile, e *j5sgen
 	for _, n := range e.Nested {
 		switch n.Kind {
 		case j5sgen.KObject, j5sgen.KOneof:
-			main.Msgs = append(main.Msgs, c.msg(main, pkg, n.Object.Name, n.Object.Oneof, nil, n.Object.Props, n.Object.Nested, "-"))
+			main.Msgs = append(main.Msgs, c.msg(main, pkg, n.Object.Name, n.Object.Oneof, nil, n.Object.Props, n.Object.Nested, psmOf(n.Object)))
 		case j5sgen.KEnum:
 			main.Enums = append(main.Enums, c.enum(main, pkg, n.Enum.Name, n.Enum.Prefix, n.Enum.Opts))
 		}
